@@ -111,6 +111,14 @@ type SWhile struct {
 	E    Expr
 	Body []Stmt
 }
+type SDoWhile struct {
+	Body []Stmt
+	E    Expr
+}
+type SFor struct {
+	Init, Test, Upd Expr // each may be nil
+	Body            []Stmt
+}
 type SBreak struct{ L int }
 type SContinue struct{ L int }
 type SReturn struct{ E Expr }
@@ -168,6 +176,28 @@ func (s SWhile) JS(ind string) string {
 	return ind + "while (" + s.E.JS() + ") " + listJS(s.Body, ind) + "\n"
 }
 func (s SWhile) Coq() string             { return fmt.Sprintf("(SWhile %s %s)", s.E.Coq(), listCoq(s.Body)) }
+func (s SDoWhile) JS(ind string) string {
+	return ind + "do " + listJS(s.Body, ind) + " while (" + s.E.JS() + ");\n"
+}
+func (s SDoWhile) Coq() string { return fmt.Sprintf("(SDoWhile %s %s)", listCoq(s.Body), s.E.Coq()) }
+func optJS(e Expr) string {
+	if e == nil {
+		return ""
+	}
+	return e.JS()
+}
+func optCoq(e Expr) string {
+	if e == nil {
+		return "None"
+	}
+	return "(Some " + e.Coq() + ")"
+}
+func (s SFor) JS(ind string) string {
+	return ind + "for (" + optJS(s.Init) + "; " + optJS(s.Test) + "; " + optJS(s.Upd) + ") " + listJS(s.Body, ind) + "\n"
+}
+func (s SFor) Coq() string {
+	return fmt.Sprintf("(SFor %s %s %s %s)", optCoq(s.Init), optCoq(s.Test), optCoq(s.Upd), listCoq(s.Body))
+}
 func (s SBreak) JS(ind string) string    { return ind + "break" + labJS(s.L) + ";\n" }
 func (s SBreak) Coq() string             { return fmt.Sprintf("(SBreak %d%%nat)", s.L) }
 func (s SContinue) JS(ind string) string { return ind + "continue" + labJS(s.L) + ";\n" }
@@ -395,11 +425,38 @@ func (g *Gen) while(labs []lab, loopDepth int, label int) []Stmt {
 		inner = append(append([]lab{}, labs...), lab{label, true})
 	}
 	body := g.list(1+g.R.Intn(3), inner, loopDepth+1, true)
-	var w Stmt = SWhile{E: test, Body: body}
+	reset := Assign{X: c, E: Lit{Kind: 1, N: 0}}
+	pre := []Stmt{SExpr{E: reset}}
+	var w Stmt
+	switch k := g.R.Intn(10); {
+	case k < 4:
+		w = SWhile{E: test, Body: body}
+	case k < 7:
+		g.Stats["dowhile"]++
+		w = SDoWhile{Body: body, E: test}
+	default:
+		g.Stats["for"]++
+		f := SFor{Test: test, Body: body}
+		if g.R.Intn(3) != 0 { // the counter reset as the initialiser
+			f.Init = reset
+			pre = nil
+		}
+		switch g.R.Intn(3) {
+		case 0:
+			f.Upd = Log{E: g.expr(1)}
+		case 1:
+			f.Upd = g.expr(2)
+		}
+		if g.R.Intn(8) == 0 { // otto polls once more per iteration when the body is empty
+			g.Stats["for-empty-body"]++
+			f.Body = nil
+		}
+		w = f
+	}
 	if label != 0 {
 		w = SLabelled{L: label, S: w}
 	}
-	return []Stmt{SExpr{E: Assign{X: c, E: Lit{Kind: 1, N: 0}}}, w}
+	return append(pre, w)
 }
 
 func (g *Gen) labelled(labs []lab, loopDepth int, inLoop bool) []Stmt {
